@@ -24,7 +24,13 @@ Tie:
      depends on a bound of a SIZE range; a short valid input must decode;
      faithfulness: the extracted allocation-metered decoders of coq/Rt/HeapBound.v
      (c15_str / c15_lst, policy PerFragment) predict peak, largest request and number of
-     allocations of the C for every UPER string / list input."""
+     allocations of the C for every UPER string / list input;
+ (N) the nested-collection sweep (lib/c15_nested.py): lists of lists (depth 1..4, through SEQUENCE members and
+     CHOICE alternatives) of zero-width and near-zero-width elements x OER, UPER, BER, XER x inner counts as
+     large as the rest of the input allows x n, 4n, 16n; oracle: peak / largest request / allocation count
+     <= c*n + K, peak/n and allocs/n must not grow from n to 4n, conforming encodings decode;
+     faithfulness: the extracted OER list-of-lists decoder of coq/Rt/HeapOer.v (c15_oll, guard PerElement)
+     predicts outcome, consumed octets, peak, largest request and allocation count exactly."""
 import sys, os, json
 from concurrent.futures import ThreadPoolExecutor
 sys.path.insert(0, os.path.join(os.path.dirname(os.path.abspath(__file__)), "..", "lib"))
@@ -731,6 +737,7 @@ def main(tier):
     tb = ["Coq 8.16.1 kernel; vm_compute for the heap refuted witnesses and Examples", "axioms under Print Assumptions: " + (", ".join(sorted(axioms)) or "none (Closed under the global context)"),
           "extraction: ExtrOcamlBasic only; OCaml 4.13.1", "harness/c15_guards.json (reviewed guard table) and lib/c15_util.scan_guards (regex scanner of the skeleton sources: function body, `if(ASN__STACK_OVERFLOW_CHECK(` followed by a failure, ber_check_tags call)",
           "lib/c15_util.py: type graphs of the hand-written modules (NODES/EDGES), input generators; harness/moddrv_c15.inc (meter: --wrap malloc family, malloc_usable_size; stack extent sampled at allocations)",
+          "lib/c15_nested.py (type table of module C15N, right-to-left encoders, the per-type constants of `bound`), the 48-byte list head and one block per NULL / BOOLEAN of the OER model tie; dmeterc's per-command heap cap",
           "lib/c15_sweep.py (type table of module C15D, per-syntax input builders), the LP64 struct sizes of checks/c15.py STRUCT (OCTET_STRING_t 40, BIT_STRING_t 48, list head 48) and the 8-byte pointer of set_add; dmeterb's refusing allocator (32 MiB per request)",
           "gcc -O1 with and without ASan/UBSan, LP64, setrlimit(RLIMIT_STACK) in child processes; frame sizes and stack exhaustion are observed, not proved"]
     return run.finish("proof", (nthm, ndis), trusted_base=tb,
@@ -743,7 +750,7 @@ def main(tier):
                       assumptions=["PARTIAL: the theorems are about a call-graph model and the reference decoders; frame sizes, stack exhaustion and the allocator are observed at run time on this build only",
                                    "recursive types covered: the hand-written shapes of modules C15A/B/C (SEQUENCE, SEQUENCE OF, SET OF, CHOICE, EXPLICIT tag, CHOICE through SEQUENCE, extension addition, constructed strings, ANY, skipped extensions); SET, open types of information object sets and APER are not exercised",
                                    "heap constants are per type class (notes/design/C15.md) and hold for requested sizes as reported by ASan's malloc_usable_size",
-                                   "the allocation-metered model (coq/Rt/HeapBound.v) covers the UPER decoders of strings and SEQUENCE OF / SET OF; OER, BER, XER, members, open types and length-prefixed primitives are held to the oracle only; restricted alphabets on random tails and zero-bit values are not compared with the model"])
+                                   "the allocation-metered models cover the UPER decoders of strings and SEQUENCE OF / SET OF (coq/Rt/HeapBound.v) and the OER decoder of nested lists over NULL / BOOLEAN (coq/Rt/HeapOer.v); BER, XER, members, alternatives, open types, SEQUENCE {} / string elements of nested lists and length-prefixed primitives are held to the oracle only; the growth oracle compares inputs up to 3072 (thorough 6144) octets; restricted alphabets on random tails and zero-bit values are not compared with the model"])
 
 
 if __name__ == "__main__":
